@@ -18,15 +18,15 @@ def depth(tier):
 
 
 def units(tier, seed):
-    us = []
+    us = [("arches", None)]
     for b in ("rpms", "modules", "extra"):
         d = depth(tier) + (1 if b == "extra" else 0)
         if b == "rpms" and tier == "thorough":
             d = 5                                   # 17 valid rpm adds: depth 5 already gives ~8 000 states
-        hists = H.source_states(b, d + 1, valid_only=True)
+        hists = H.source_states(b, d, valid_only=True)           # source states; every valid call is then tried from each of them
         k = seed % len(hists)
         hists = hists[k:] + hists[:k]
-        chunk = 40 if tier == "quick" else 200
+        chunk = 8 if tier == "quick" else 40
         for i in range(0, len(hists), chunk):
             us.append((b, hists[i:i + chunk]))
     return us
@@ -34,11 +34,31 @@ def units(tier, seed):
 
 def run_unit(unit, acc):
     builder, hists = unit
-    for hist in hists:
+    if builder == "arches":
+        from mc.models import ids
+        for arch in ids.BINARY_ARCHES_DOC:
+            for b, op in (("rpms", ["rpms", "Server", arch, "bash-0:4.3-1.fc23.x86_64", "p/bash.rpm", None, "binary", H.BASH_SRC]),
+                          ("modules", ["modules", "Server", arch, "perl:5.26", "tag", "p/perl.yaml", "binary", ["x"]]),
+                          ("extra", ["extra", "Server", arch, "Server/GPL", 1, {"sha256": "a" * 64}])):
+                state, problems, reasons = H.run_history(b, [op], cycle=True)
+                acc.ev()
+                acc.trace()
+                if problems:
+                    acc.violation("cycle:arch", {"kind": "hist", "builder": b, "hist": [op], "cycle": True}, {"problems": problems},
+                                  "%s manifest for the documented arch %r: %s" % (b, arch, problems[0][:300]))
+                else:
+                    acc.outcome("%s:cycle-ok" % b)
+        return
+    menu = H.menu(builder, valid_only=True)
+    for src_hist in hists:
+      for op in [None] + menu:
+        hist = src_hist if op is None else src_hist + [op]
+        if op is None and src_hist:
+            continue                                   # (reached as a transition from its own source state)
         state, problems, reasons = H.run_history(builder, hist, cycle=True)
         acc.ev()
         acc.trace()
-        acc.trans(len(hist))
+        acc.trans()
         acc.state((builder, H.key_of(state)))
         if problems:
             acc.violation("cycle:" + builder, {"kind": "hist", "builder": builder, "hist": hist, "cycle": True},
@@ -76,7 +96,7 @@ KNOWN = {}
 
 def describe(tier):
     return {
-        "rule": "every sequence of VALID add calls from the C12 menus (rpms: 17 calls over 3 cells, source packages with binary, "
+        "rule": "every sequence of VALID add calls from the C12 menus (every valid call from every distinct state reachable in fewer calls), one manifest per documented architecture and builder, (rpms: 17 calls over 3 cells, source packages with binary, "
                 "debuginfo and source sub-packages, epochs 2 and 10, names with dashes and digits, null / upper / mixed-case signing keys, "
                 "'.rpm' suffixes and directory prefixes; modules: 2-, 3-, 4-part UIDs in 3 categories over 2 cells; extra files with 1 "
                 "and 3 checksum types, repeated entries, each tree exported with dump_for_tree before the cycle), deduplicated on the model state.  At every reachable state: the real object "
